@@ -48,7 +48,8 @@ def _merge_stubs_docstring(obj: Object, stubs: Object) -> None:
 def _merge_stubs_overloads(obj: Module | Class, stubs: Module | Class) -> None:
     for function_name, overloads in list(stubs.overloads.items()):
         if overloads:
-            with suppress(KeyError):
+            # The member can be missing, or be an alias that cannot be resolved.
+            with suppress(KeyError, AliasResolutionError, CyclicAliasError):
                 obj.get_member(function_name).overloads = overloads
         del stubs.overloads[function_name]
 
